@@ -634,8 +634,9 @@ void prop(Src& s, Ctx& ctx) {
             ctx.log(os.str());
         }
         // serial-number arithmetic only orders values less than 2^31 apart: an ACK packet is not "lost" when the next one
-        // that gets through would have to move the cumulative ACK by 2^30 or more in one step (long-lived histories)
-        if (fate == 1 && model.init && rx.cum() - model.pos >= (1ULL << 30)) fate = 0;
+        // that gets through would already have to move the cumulative ACK by 2^28 or more (long-lived histories; together with the
+        // largest single arrival the step then stays below 2^31)
+        if (fate == 1 && model.init && rx.cum() - model.pos >= (1ULL << 28)) fate = 0;   // (one arrival adds at most 1.5 * 2^30: the jump stays below 2^31)
         if (fate == 1) { ++lost; continue; }
 
         // ---- deliver to the tracker, update the model, compare
